@@ -3,6 +3,11 @@
  *   owners = "0,1,1": node i+1 (n1, n2, ...) is initially owned by script thread owners[i]
  *   ops: p<v> = mpmc_stack_push of the node acquired most recently, carrying value v
  *               (no-op when the thread owns no node)
+ *        t<b>:<v> = mpmc_stack_push_timeout of that node with value v and an attempt budget
+ *               of b >= 1 CAS tries (notes "call pushto <v> <b>" / "ret pushto <r>"); when
+ *               it gives up (r = 0 = MPMC_RETRY) the node STAYS with the caller, who may push
+ *               it again later (with a fresh value).  b = 0 is rejected: `tries` is a size_t
+ *               that is decremented before it is tested, so 0 wraps to SIZE_MAX tries.
  *        f    = mpmc_stack_fifo_flush, l = mpmc_stack_lifo_flush; the flushing thread then
  *               walks the returned (now private) list: "item <v>" per node in list order,
  *               and keeps the nodes for its next pushes. */
@@ -41,6 +46,19 @@ static void do_op(int t, const char* op) {
     mpmc_stack_node_init(n, (void*)v);
     mpmc_stack_push(&stk, n);
     vr_note("ret push 1");
+  } else if (op[0] == 't') {
+    if (!nown[t]) return;
+    long b = atol(op + 1);
+    const char* c = strchr(op, ':');
+    long v = c ? atol(c + 1) : 0;
+    if (b < 1 || v <= 0) vr_finish("BADSCRIPT");
+    mpmc_stack_node_t* n = own[t][--nown[t]];
+    vr_note("call pushto %ld %ld", v, b);
+    mpmc_stack_node_init(n, (void*)v);
+    int r = mpmc_stack_push_timeout(&stk, n, (size_t)b);
+    vr_note("ret pushto %d", r);
+    /* gave up: the node was not published and is still ours */
+    if (r != MPMC_SUCCESS) own[t][nown[t]++] = n;
   } else {
     do_flush(t, op[0] == 'f');
   }
